@@ -6,5 +6,5 @@ cd "$(dirname "$0")/.." || exit 2
 for d in seeded/C??-[0-9] seeded/C??-[0-9][0-9]; do
   [ -d "$d" ] || continue
   idk=$(basename "$d"); id=${idk%-*}; k=${idk#*-}
-  tools/seedeval.sh "$id" "$k" | tail -1 | cut -c1-40,140-400
+  tools/seedeval.sh "$id" "$k" | grep "^{" | tail -1 | cut -c1-40,140-400
 done
